@@ -374,7 +374,7 @@ def extra_harnesses(tier):
         h.append(spec(server, None, "tcp", (("call",),), "normal") + (1,))
         h.append(spec(server, None, "tcp", (), "normal") + (1,))
     # many simultaneous clients of slow methods (beyond the default request pool's 30 workers), default schedule only
-    for n in ((70,) if tier == "quick" else (35, 70, 130)):
+    for n in ((140,) if tier == "quick" else (35, 70, 140, 200)):
         h.append(spec("pooled", None, "tcp", ((("nap",),) * n), "normal") + (0, {"F": 0}))
     h.append(spec("simple", None, "tcp", ((("nap",),) * 40), "normal") + (0, {"F": 0}))
     for server, pool in (("simple", None), ("pooled", (1, 1))):
@@ -438,7 +438,7 @@ META = {
     "serial_legs": ("schedules",),
     "technique": "stateless model checking of the real servers, request handler and clients over an in-memory network whose blocking operations are "
     "scheduling points: exhaustive schedule enumeration with iterative preemption bounding, non-termination decided by the scheduler's deadlock verdict",
-    "rule": "additionally: two servers of the same kind alive at once (the first is closed, the second must still answer); a method taking 40 virtual seconds over TCP and Unix sockets (socket timeouts are honoured in virtual time); servers next to a second started pool (their notification pool), 70 (thorough 35/70/130) simultaneous clients of a slow method on "
+    "rule": "additionally: two servers of the same kind alive at once (the first is closed, the second must still answer); a method taking 40 virtual seconds over TCP and Unix sockets (socket timeouts are honoured in virtual time); servers next to a second started pool (their notification pool), 140 (thorough 35/70/140/200) simultaneous clients of a slow method on "
     "the default request pool, 40 on a plain server, 12 x (call, slow call) on a (2,0) pool over Unix sockets - default hand-over order at blocking points (F=0), no preemption; 3 clients of the slow method on a (1,0) pool with the ordinary ladder; harness = server (Simple, Pooled with default pool (30,0) or user pools (1,1) (1,0) (2,0)) x listener (TCP, Unix) x client programs (1-2 clients "
     "(thorough 3), 1-2 requests each from {call, notification, batch, malformed body, truncated body with half-close, failing method, method raising SystemExit, gated slow method}) x life-cycle (serve/shutdown/"
     "server_close, server_close without serving, double shutdown and close, shutdown with a gated request in flight); every schedule up to the per-harness "
